@@ -71,11 +71,11 @@ PROPS.update({
                      "rejection leaves the state unchanged: checked on the real code after every rejected batch (coin root, transaction set)"]),
     "C15": stf_prop(["STF/Proofs/Pool.vo", "STF/Proofs/SealCoins.vo", "STF/Proofs/SealSupply.vo", "STF/Proofs/PoolKeys.vo", "STF/Proofs/SealLift.vo", "STF/Proofs/Witness2.vo"], ST_COINS | ST_POOLS,
                     ["sums below 2^128 (the supply bound of C09) in the arithmetic theorems", "PoolKey::from_bytes result is an oracle field; its canonicality test is modelled"]),
-    "C16": stf_prop(["STF/Proofs/Pool.vo", "STF/Proofs/SealSupply.vo", "STF/Proofs/SealLift.vo", "STF/Proofs/SealInv.vo", "STF/Proofs/Witness4.vo"], ST_POOLS | ST_COINS,
+    "C16": stf_prop(["STF/Proofs/Pool.vo", "STF/Proofs/SealSupply.vo", "STF/Proofs/SealLift.vo", "STF/Proofs/SealInv.vo", "STF/Proofs/Witness4.vo", "STF/Proofs/PoolHistory.vo"], ST_POOLS | ST_COINS,
                     ["proved: both clauses together are an invariant of sealing and of accepted batches - a pool that is live (reserves and liquidity >= 1) and backed with room to spare (coins + tokens parked in reserves + 1 <= recorded liquidity) stays so; the built-in pools exist after the bootstrap; both invariants are also evaluated on every sealed state of the stream",
                      "request coins as declared, distinct ids, sums below 2^128, no saturation of issued liquidity, distinct pools have distinct liquidity tokens; the batch invariant assumes the batch issues none of the token (faucets of test networks can mint any denomination)"]),
-    "C20": stf_prop(["STF/Proofs/Counts.vo", "STF/Proofs/PermAccept.vo"], ST_COUNTS | ST_COINS,
-                    ["count keys and coin keys live in the same SMT: assumed distinct (hash oracle)", "batch-level theorem under the hash-oracle assumptions HashOK (distinct, new transaction hashes; markers are not coin ids)"]),
+    "C20": stf_prop(["STF/Proofs/Counts.vo", "STF/Proofs/PermAccept.vo", "STF/Proofs/SealCounts.vo", "STF/Proofs/History.vo", "STF/Proofs/Witness5.vo"], ST_COUNTS | ST_COINS,
+                    ["count keys and coin keys live in the same SMT: assumed distinct (hash oracle)", "proved for every reachable state: from the genesis state (or any state satisfying the invariant Good) through every history of accepted / rejected batches and block boundaries (seal with any proposer action, next_unsealed including the TIP-906 activation), under the per-step hash-oracle assumptions (HashOK; faucet markers are not hashes of transactions filed in the block; the proposer-reward coin id is new)"]),
     "C05": stf_prop(["STF/Proofs/Fees.vo"], ST_FEES | ST_COINS | ST_CODE,
                     ["serialized length of a transaction (stdcode) is an oracle field taken from the real crate", "saturating u128 sums: exact under the 2^127 supply bound"]),
     "C06": stf_prop(["STF/Proofs/Block.vo"], ST_ALL,
@@ -88,11 +88,11 @@ PROPS.update({
     "C08": stf_prop(["STF/Proofs/Block.vo"], ST_ALL,
                     ["the content-addressed store returns the trees the header roots name (from_block takes them from the same maps)"],
                     "; C08: after every restart both lineages run three further blocks and their headers are compared"),
-    "C13": stf_prop(["STF/Proofs/Stakes.vo"], ST_STAKES | ST_CODE, ["StakeDoc decoding (stdcode) is an oracle field"]),
+    "C13": stf_prop(["STF/Proofs/Stakes.vo", "STF/Proofs/StakeHistory.vo"], ST_STAKES | ST_CODE, ["StakeDoc decoding (stdcode) is an oracle field", "history theorem (C13_locked_for_life): per-step hash-oracle assumptions (HashOK, the stake transaction's hash is not a faucet marker id, a pool request's hash or a reward id), input indices are bytes, heights outside the legacy range below 900000"]),
     "C14": stf_prop(["STF/Proofs/Confirm.vo"], ST_CONFIRM, ["Ed25519 verification and the header hash are oracles"]),
     "C17": stf_prop(["STF/Proofs/FeeMult.vo", "STF/Proofs/Frame.vo"], ST_MULT, []),
     "C18": stf_prop(["STF/Proofs/Dosc.vo"], ST_MULT | ST_CODE, ["melpow::Proof::verify is an oracle answered by the real crate per (proof, seed header, coin, difficulty)"]),
-    "C19": stf_prop(["STF/Proofs/Faucet.vo"], ST_COINS | ST_CODE, ["faucet markers are distinct from every other coin id (hash oracle); no covenant hashes to 0"]),
+    "C19": stf_prop(["STF/Proofs/Faucet.vo", "STF/Proofs/FaucetHistory.vo", "STF/Proofs/Witness5.vo"], ST_COINS | ST_CODE, ["faucet markers are distinct from every other coin id (hash oracle); no covenant hashes to 0", "history theorem (C19_at_most_once_anywhere): the marker id is not the hash of any transaction of the history nor a proposer-reward id, and no transaction lists a covenant whose hash is the zero address"]),
 })
 
 NOT_YET = {}
@@ -113,9 +113,9 @@ MANIFEST_TEXT = {
                      "Hash-oracle assumptions stated as hypotheses.", "Coq proof (gmap fold lemmas, list induction) + differential replay + reflection against an independent map-based spec"),
     "C15": _stf_text("Coq theorems: at seal every coin that is not output 0/1 of a pool request is unchanged; a pool request has kind swap/deposit/withdraw and canonical pool data; every pool named by a block's requests is settled exactly once per phase (the key list has no duplicates); swap_many pays floor(in*other'*995/(own'*1000)) on each side, keeps reserves positive, never decreases the product; pro-rata shares never exceed the total; at the level of the state the reserves of every pool move by what is taken from / paid into the request coins (never less), over all pools and the three phases of a block.",
                      'Arithmetic theorems assume sums below 2^128; request coins as declared (C02).', 'Coq proof (nia over N, induction over settlement loops and pools, sortedness of the key list) + differential replay + reflection'),
-    "C16": _stf_text("Coq theorems: both clauses as one invariant - a pool whose reserves and recorded liquidity are >= 1 and whose token is backed with room to spare (tokens in coins + tokens parked in other pools' reserves + 1 <= recorded liquidity; the built-in pools start with 10^9 nobody owns) keeps both through a whole seal (bootstrap, swaps, deposits, withdrawals, peg, subsidy, proposer reward) and through every accepted batch that issues none of the token; swap_many never panics on a live pool and keeps it live under the code's saturating arithmetic; the bootstrap makes the built-in pools exist; the reflection evaluates both invariants on every sealed state.",
+    "C16": _stf_text("Coq theorems: both clauses as one invariant - a pool whose reserves and recorded liquidity are >= 1 and whose token is backed with room to spare (tokens in coins + tokens parked in other pools' reserves + 1 <= recorded liquidity; the built-in pools start with 10^9 nobody owns) keeps both through a whole seal (bootstrap, swaps, deposits, withdrawals, peg, subsidy, proposer reward) and through every accepted batch that issues none of the token; swap_many never panics on a live pool and keeps it live under the code's saturating arithmetic; the bootstrap makes the built-in pools exist; lifted to whole histories (C16_every_reachable_state): a pool that exists, is live and backed stays so in every later state of every sequence of batches and block boundaries meeting the per-step side conditions; the reflection evaluates both invariants on every sealed state.",
                      "Hypotheses: request coins as declared, distinct coin ids, sums below 2^128, no saturation of issued liquidity, distinct liquidity tokens per pool; faucets of test networks can mint any denomination.", "Coq proof (potential function over pools and phases, liveness through every seal step) + invariant reflection on every sealed state"),
-    "C20": _stf_text('Coq theorems: the CountsOk invariant (count entry = number of coins per covenant hash, no entry for none) is preserved by insert_coin (fresh key or same covenant hash), by remove_coin (which never underflows), established by the TIP-906 activation fold, and preserved by a whole accepted batch under the hash-oracle assumptions alone; the reflection regroups the real coin entries after every step.',
+    "C20": _stf_text('Coq theorems: the CountsOk invariant (count entry = number of coins per covenant hash, no entry for none) is preserved by insert_coin (fresh key or same covenant hash), by remove_coin (which never underflows), established by the TIP-906 activation fold, preserved by a whole accepted batch under the hash-oracle assumptions alone, by a whole seal (Melswap rewrites keep the covenant hash of a request output; deposit outputs are removed without underflow; the reward coin is new) and by next_unsealed across the activation height; hence (C20_every_reachable_state, C20_every_sealed_state) the counts equal the number of unspent coins in every state of every history from the genesis state, and no count exists before the activation; the reflection regroups the real coin entries after every step.',
                      'Count keys assumed distinct from coin keys.', 'Coq proof (map_fold lemmas, induction) + differential replay + reflection'),
     "C05": _stf_text("Coq theorems over the executable model of apply_tx_batch / seal: weight and minimum-fee formulas, every member of an accepted batch pays at least its minimum fee, fee pool and tips move by exactly the minimum-fee parts and remainders, the proposer reward coin is fee_pool/65536 + tips and both drop by exactly that - for all states, batches and multipliers.",
                      "The serialized size is an oracle field.", "Coq proof (induction over the batch) + differential replay + reflection"),
@@ -125,7 +125,7 @@ MANIFEST_TEXT = {
                      "Soundness assumes a collision-free hash (hypothesis).", "Coq proof (depth induction over an abstract hash; state-level unfolding) + differential recomputation of real novasmt roots/proofs"),
     "C08": _stf_text("Coq theorem: from_block(to_block s) = s as states (Leibniz equality, hence identical behaviour under every continuation) whenever no tips are pending, and the refutation for pending tips (known finding F16); the harness runs three further blocks on both lineages after every restart.",
                      "The store is modelled as returning the same maps.", "Coq proof (record equality) + lock-step continuation check"),
-    "C13": _stf_text("Coq theorems: a stake is registered iff the five stated conditions hold; the stake set after a batch is exactly old plus registered; malformed stake transactions reject the batch; an accepted batch spends no output of a staked transaction (including same-batch stakes); at each block boundary exactly the stakes with end >= new epoch survive; sealing keeps the stakes.",
+    "C13": _stf_text("Coq theorems: a stake is registered iff the five stated conditions hold; the stake set after a batch is exactly old plus registered; malformed stake transactions reject the batch; an accepted batch spends no output of a staked transaction (including same-batch stakes); at each block boundary exactly the stakes with end >= new epoch survive; sealing keeps the stakes; over whole histories (C13_registration_locks, C13_locked_for_life): from the batch that registers a stake, the staked coin is in the coin tree unchanged and the stake in the set in every state of every history whose block boundaries stay within the life of the stake.",
                      "Legacy heights (F20) appear as explicit guards in the statements.", "Coq proof (induction over batch / map filter) + differential replay + reflection"),
     "C14": _stf_text("Coq theorems: confirm = true iff all signatures verify and 3*present > 2*total (the overflow-free threshold of the code is proved equal to that); never below two thirds, empty proofs never confirm, full proofs confirm, adding a valid signature is monotone - for all stake sets and proofs.",
                      "Ed25519 is an oracle.", "Coq proof (integer arithmetic, list induction) + differential replay + reflection"),
@@ -133,7 +133,7 @@ MANIFEST_TEXT = {
                      "", "Coq proof (lia with div/mod) + differential replay + reflection"),
     "C18": _stf_text("Coq theorems: an accepted mint has a decodable proof valid under one of the two hashes for the seed header at the coin's creation height and the coin id, difficulty in 1..64, the mainnet age rule, ERG outputs within dosc_to_erg(calculate_reward(...)); every mint of an accepted batch was validated; the DOSC speed never decreases in a batch and is kept by seal.",
                      "melpow verification is an oracle.", "Coq proof (case analysis) + differential replay + reflection"),
-    "C19": _stf_text("Coq theorems: on mainnet an accepted batch contains no faucet but the grandfathered hash; a faucet whose marker is in the coin tree makes the batch fail (same batch, later batches); acceptance inserts the marker and batches that do not spend it keep it.",
+    "C19": _stf_text("Coq theorems: on mainnet an accepted batch contains no faucet but the grandfathered hash; a faucet whose marker is in the coin tree makes the batch fail (same batch, later batches); acceptance inserts the marker and batches that do not spend it keep it; over whole histories (C19_at_most_once_anywhere): the marker is locked by the covenant hash 0, survives every later batch and block boundary, and every later batch containing a faucet with the same hash is refused.",
                      "Markers are assumed distinct from other coin ids (hash oracle).", "Coq proof (induction over the batch) + differential replay + reflection"),
     "C12": {
         "text": "Machine-checked proof (Coq) that the model's decoder and encoder are mutually inverse on all byte strings / all representable programs (no size bound), over opcode bytes and operand shapes regenerated from opcode.rs/consts.rs on every run; the model is tied to the real Covenant::from_bytes/to_bytes/weight by exhaustive comparison on all short byte strings and literal comparison on generated ones.",
